@@ -231,6 +231,35 @@ func c09Nodes(c *fw.Ctx, k int) {
 	if k%9 == 8 {
 		R = L // the very same object on both sides
 	}
+	if k%13 == 5 {
+		// one node object (with lines below it) attached at two places of an
+		// input, as a program does that hangs one citation under two facts:
+		// both occurrences are nodes of the input
+		side := L
+		if k%2 == 0 {
+			side = R
+		}
+		var shared, host gedcom.Node
+		all := c07All(side)
+		for _, x := range all[1:] {
+			if _, plain := x.(*gedcom.SimpleNode); plain && len(x.Nodes()) > 0 && shared == nil {
+				shared = x
+			}
+		}
+		if shared != nil {
+			inside := map[gedcom.Node]bool{}
+			c07Identity(shared, inside)
+			for _, x := range all {
+				if _, plain := x.(*gedcom.SimpleNode); plain && !inside[x] && c07Parent(side, shared) != x {
+					host = x
+				}
+			}
+		}
+		if shared != nil && host != nil {
+			host.AddNode(shared)
+			c.Count("inputs-with-one-node-object-at-two-places", 1)
+		}
+	}
 	lt, rt := c07Text(L), c07Text(R)
 	payload := map[string]interface{}{"left": lt, "right": rt}
 	c.Count("node-merges", 1)
@@ -314,6 +343,51 @@ func c09Nodes(c *fw.Ctx, k int) {
 	res2, err2 := gedcom.MergeNodes(L, R, gedcom.NewDocument())
 	if err2 != nil || c07Text(res2) != first {
 		c.Violation("second-merge-differs:MergeNodes", fmt.Sprintf("merging the same inputs again gives a different result (an input was rewritten by the first merge?)\nfirst:\n%s\nsecond:\n%s", first, c07Text(res2)), payload)
+	}
+	// chained: what an earlier merge or copy returned is the left input of the
+	// next merge (three files merged one after the other). It is an input like
+	// any other: never modified, never part of the result.
+	if err2 == nil && !gedcom.IsNil(res2) {
+		prev, how := res2, "the result of an earlier merge"
+		switch k % 3 {
+		case 1:
+			prev, how = gedcom.DeepCopy(L, gedcom.NewDocument()), "a DeepCopy"
+		case 2:
+			prev, how = gedcom.Filter(L, gedcom.NewDocument(), gedcom.WhitelistTagFilter()), "a Filter copy"
+			if gedcom.IsNil(prev) {
+				prev, how = res2, "the result of an earlier merge"
+			}
+		}
+		third := cloneSpec(bs)
+		third.Kids = append(third.Kids, &gen.Spec{Tag: "_V3RD", Value: "only in the third tree", Kids: []*gen.Spec{{Tag: "_V3RDK", Value: "k"}}})
+		if T, _ := c07Node(third); T != nil && T.Tag().Is(prev.Tag()) {
+			c.Count("chained-merges", 1)
+			pt, tt := c07Text(prev), c07Text(T)
+			pl := map[string]interface{}{"left": pt, "right": tt, "left_is": how}
+			res3, err3 := gedcom.MergeNodes(prev, T, gedcom.NewDocument())
+			if err3 != nil || gedcom.IsNil(res3) {
+				c.Violation("merge-failed:MergeNodes:chained", fmt.Sprintf("%s could not be merged with a third tree: %v", how, err3), pl)
+				return
+			}
+			if a, b := c07Text(prev), c07Text(T); a != pt || b != tt {
+				c.Violation("inputs-modified:MergeNodes:chained", fmt.Sprintf("the left input of the merge was %s; the merge changed an input:\nleft before:\n%s\nleft after:\n%s", how, pt, a), pl)
+				return
+			}
+			pids := map[gedcom.Node]bool{}
+			c07Identity(prev, pids)
+			c07Identity(T, pids)
+			for _, x := range c07All(res3) {
+				if pids[x] {
+					c.Violation("shared-node:MergeNodes:chained", fmt.Sprintf("the left input of the merge was %s; the result contains an input's own node object %s", how, gen.Describe(x)), pl)
+					return
+				}
+			}
+			c09MutateAll(res3, 0)
+			if a, b := c07Text(prev), c07Text(T); a != pt || b != tt {
+				c.Violation("alias:mutating-result-changed-input:MergeNodes:chained", fmt.Sprintf("the left input of the merge was %s; after mutating the result an input reads differently", how), pl)
+				return
+			}
+		}
 	}
 	if c.WantSample("nodes") {
 		c.Sample("nodes", map[string]interface{}{"left": clip(lt, 250), "right": clip(rt, 250), "merged": clip(first, 350)})
